@@ -223,6 +223,50 @@ def CliInst.run (i : CliInst) : List Call → List Deadline
   | [] => []
   | c :: cs => (i.call c.opts c.parent c.now).1 :: (i.call c.opts c.parent c.now).2.run cs
 
+/-! ### the zrpc configuration glue as decision functions (round 5c; `TieSem` proves them equal to the translation of
+zrpc/server.go `setupUnaryInterceptors`, zrpc/client.go `NewClient`, zrpc/internal/client.go `WithTimeout`,
+`buildDialOptions`, `buildUnaryInterceptors` for all arguments).  A `ClientOption` is `some t` (= `WithTimeout(t)`) or
+`none` (any other option: it does not touch `ClientOptions.Timeout`). -/
+
+/-- `setupUnaryInterceptors`: `if c.Timeout > 0 { AddUnaryInterceptors(UnaryTimeoutInterceptor(c.Timeout ms, c.MethodTimeouts...)) }`:
+the arguments of the installed interceptor, `none` = not installed -/
+def srvGlueIcpt (confMs : Int) (mts : List (Nat × Int)) : Option (Int × List (Nat × Int)) :=
+  if confMs > 0 then some (confMs * 1000000, mts) else none
+
+/-- `buildUnaryInterceptors(timeout)`: `if c.middlewares.Timeout { append(TimeoutInterceptor(timeout)) }` — also for
+`timeout ≤ 0` (the interceptor is what honours `WithCallTimeout`) -/
+def cliGlueIcpt (mwTimeout : Bool) (timeout : Int) : Option Int := if mwTimeout then some timeout else none
+
+/-- zrpc.NewClient: the option list handed to internal.NewClient.  `other k`: the k-th condition that guards an option which
+does not touch the timeout (credentials, NonBlock, keepalive) — arbitrary -/
+def cliGlueConfOpts (confMs : Int) (options : List (Option Int)) (other : Nat → Bool) : List (Option Int) :=
+  ([] : List (Option Int)) ++ (if other 0 then [none] else []) ++ (if other 1 then [none] else []) ++
+    (if confMs > 0 then [some (confMs * 1000000)] else []) ++ (if other 2 then [none] else []) ++ options
+
+/-- `opt(&cliOpts)` as far as `cliOpts.Timeout` is concerned (`WithTimeout`: `options.Timeout = timeout`) -/
+def applyClientOpt (t : Int) : Option Int → Int
+  | some x => x
+  | none => t
+
+/-- `buildDialOptions`: `var cliOpts ClientOptions; for _, opt := range opts { opt(&cliOpts) }`; the argument of
+`buildUnaryInterceptors` is `cliOpts.Timeout` -/
+def cliGlueDialTimeout (opts : List (Option Int)) : Int := opts.foldl applyClientOpt 0
+
+/-- the whole client path for one call: zrpc.NewClient → internal.NewClient (the balancer option in front) → dial →
+buildDialOptions → buildUnaryInterceptors → the interceptor closure → the context handed to the invoker -/
+def cliConfigDeadline (mw : Bool) (confMs : Int) (options : List (Option Int)) (other : Nat → Bool)
+    (callOpts : List (Option Int)) (parent : Deadline) (now : Int) : Deadline :=
+  match cliGlueIcpt mw (cliGlueDialTimeout (none :: cliGlueConfOpts confMs options other)) with
+  | some t => ((CliInst.mk t).call callOpts parent now).1
+  | none => parent
+
+/-- the whole server path for one call: RpcServerConf → setupUnaryInterceptors → the interceptor closure → the handler's context -/
+def srvConfigDeadline (confMs : Int) (mts : List (Nat × Int)) (method : Nat) (parent : Deadline) (now : Int) : Deadline :=
+  match srvGlueIcpt confMs mts with
+  | some a => ((SrvInst.new a.1 a.2).call method parent now).1
+  | none => parent
+
+
 /-- fx.DoWithTimeout: `parentCtx := context.Background(); for _, opt := range opts { parentCtx = opt() }` -/
 def fxParentLoop (opts : List Deadline) : Deadline := opts.foldl (fun _ opt => opt) none
 
